@@ -10,6 +10,7 @@ and rendered to `flights` [(dir, bytes)] (dir 0 = client→server), a key log an
 import hashlib
 import hmac
 import struct
+import zlib
 
 import wire
 import spec_suites
@@ -83,15 +84,15 @@ def ext(t, body):
     return struct.pack(">HH", t, len(body)) + body
 
 
-def client_hello(cr, ver, suites, sid=b"", exts=b"", ssl3=False):
-    b = ver + cr + bytes([len(sid)]) + sid + struct.pack(">H", len(suites)) + suites + b"\x01\x00"
+def client_hello(cr, ver, suites, sid=b"", exts=b"", ssl3=False, comp=0):
+    b = ver + cr + bytes([len(sid)]) + sid + struct.pack(">H", len(suites)) + suites + (b"\x02\x01\x00" if comp else b"\x01\x00")
     if not ssl3 or exts:
         b += struct.pack(">H", len(exts)) + exts
     return hs(1, b)
 
 
-def server_hello(sr, ver, suite, sid=b"", exts=b""):
-    return hs(2, ver + sr + bytes([len(sid)]) + sid + suite + b"\x00" + struct.pack(">H", len(exts)) + exts)
+def server_hello(sr, ver, suite, sid=b"", exts=b"", comp=0):
+    return hs(2, ver + sr + bytes([len(sid)]) + sid + suite + bytes([comp]) + struct.pack(">H", len(exts)) + exts)
 
 
 class Script:
@@ -109,6 +110,9 @@ class Script:
         self.etm = bool(shape.get("etm")) and self.d["mode"] == "CBC" and version != "ssl3"
         self.cr, self.sr = rng.randbytes(32), rng.randbytes(32)
         self.seq = {0: 0, 1: 0}
+        # record compression (RFC 3749 DEFLATE, up to TLS 1.2): one compression stream per direction, flushed at every record
+        self.comp = 1 if shape.get("deflate") and version != "tls13" else 0
+        self.zc = {0: zlib.compressobj(), 1: zlib.compressobj()} if self.comp else None
         # per direction, in stream order: ("clear", raw) | ("hs", raw, plaintext) | ("app", raw, plaintext) | ("alert", raw)
         self.rec_log = {0: [], 1: []}
         d = self.d
@@ -122,6 +126,8 @@ class Script:
             self.epoch = {0: "hs", 1: "hs"}
             return
         self.ms = rng.randbytes(48)
+        if shape.get("master"):
+            self.ms = shape["master"]          # a resumed session: the master secret of an earlier connection, fresh randoms
         if d["aead"]:
             mac_kb, ivlen = 0, (12 if d["algo"] == "CHACHA20" else 4)
         elif d["algo"] == "RC4":
@@ -168,6 +174,8 @@ class Script:
             return hdr + c.encrypt(nonce, inner, hdr)
         n = self.seq[fs]
         self.seq[fs] += 1
+        if self.comp:
+            pt = self.zc[fs].compress(pt) + self.zc[fs].flush(zlib.Z_SYNC_FLUSH)
         if d["aead"]:
             aad = struct.pack(">Q", n) + bytes([typ]) + ver + struct.pack(">H", len(pt))
             if d["algo"] == "CHACHA20":
@@ -245,8 +253,8 @@ class Script:
         ext_c = ext(0x0D, b"\x00\x02\x04\x01") if v != "ssl3" else b""
         ch_rec_ver = ver if v == "ssl3" else b"\x03\x01"
         flights = [(0, self._clear(0, rec(22, ch_rec_ver, client_hello(self.cr, ver, offer, sid if sh.get("abbreviated") else b"",
-                                                                       ext_c, ssl3=(v == "ssl3")))))]
-        sh_msg = server_hello(self.sr, ver, code, sid, ext_s)
+                                                                       ext_c, ssl3=(v == "ssl3"), comp=self.comp))))]
+        sh_msg = server_hello(self.sr, ver, code, sid, ext_s, comp=self.comp)
         ccs = rec(20, ver, b"\x01")
         if v == "tls13" and not sh.get("ccs13", True):
             ccs = b""                              # no middlebox-compatibility ChangeCipherSpec (RFC 8446 D.4 is optional)
